@@ -562,6 +562,7 @@ uint64_t bufr_getbits ( BUFR_Message *bufr, int nbbits, int *errcode)
       *errcode = -2;
       return 0;
       }
+   if (nbbits <= 0) return 0;
 
    ptrData = bufr->s4.current;
    bitno = bufr->s4.bitno;
@@ -623,7 +624,7 @@ uint64_t bufr_getbits ( BUFR_Message *bufr, int nbbits, int *errcode)
                *errcode = -1;
                }
             bufr->s4.bitno = bitno;
-            bufr->s4.current = ptrData;
+            bufr->s4.current = ptrData + 1;
             return bits;
 	      }
          else
@@ -672,9 +673,17 @@ void bufr_skip_bits ( BUFR_Message *bufr, int nbbits, int *errcode)
 
    nbits_read = 0;
    *errcode = 0;
+   if (nbbits <= 0) return;
 
    ptrData = bufr->s4.current;
    bitno = bufr->s4.bitno;
+
+   if( ptrData >= (bufr->s4.data + bufr->s4.max_data_len) )
+      {
+      bufr_vprint_debug( _("Warning: bufr_skipbits( %d ), out of bounds!\n"), nbbits);
+      *errcode = -1;
+      return;
+      }
 
 /*
  * saut par tranche de 8 bits
@@ -723,7 +732,8 @@ void bufr_skip_bits ( BUFR_Message *bufr, int nbbits, int *errcode)
                *errcode = -1;
                }
             bufr->s4.bitno = bitno;
-            bufr->s4.current = ptrData;
+            bufr->s4.current = ptrData + 1;
+            return;
             }
          else
             {
